@@ -5,6 +5,7 @@ package main
 // showing that *every* site of a sensitive call is one of the audited ones.
 
 import (
+	"go/token"
 	"fmt"
 	"go/types"
 	"sort"
@@ -59,6 +60,19 @@ func (v *Verifier) callSites(pred func(name string) bool) map[string][]string {
 		}
 	}
 	return res
+}
+
+func isSoughtMap(t types.Type, mp string) bool {
+	m, ok := t.Underlying().(*types.Map)
+	if !ok {
+		return false
+	}
+	p, ok := m.Elem().(*types.Pointer)
+	if !ok {
+		return false
+	}
+	n, ok := p.Elem().(*types.Named)
+	return ok && n.Obj().Pkg() != nil && n.Obj().Pkg().Path() == mp+"/sizes" && n.Obj().Name() == "Path"
 }
 
 func (v *Verifier) VerifyStructural(name string, propNames []string) *FuncResult {
@@ -172,6 +186,70 @@ func (v *Verifier) VerifyStructural(name string, propNames []string) *FuncResult
 		}
 		sort.Strings(bad)
 		mk(len(bad) == 0, fmt.Sprintf("no function of the module iterates over a map; offending: %v", bad))
+	case "resolver-encapsulation":
+		// Object-invariant methodology for InOrderPathResolver (A-OBJ-INV):
+		// its invariant is established by NewPathResolver and preserved by
+		// every method (proved); it holds at every method entry because no
+		// other function writes the state it speaks about. Checked here: the
+		// fields Path.parent/relativePath/seekerCount and the soughtPaths map
+		// are written only by methods of *InOrderPathResolver, and their
+		// addresses are never taken for any other use than a load.
+		protected := map[string]bool{"Path.parent": true, "Path.relativePath": true, "Path.seekerCount": true, "InOrderPathResolver.soughtPaths": true}
+		allowed := func(fn *ssa.Function) bool {
+			for f := fn; f != nil; f = f.Parent() {
+				if r := f.Signature.Recv(); r != nil && strings.HasSuffix(r.Type().String(), "/sizes.InOrderPathResolver") {
+					return true
+				}
+			}
+			return fn.String() == mp+"/sizes.NewPathResolver"
+		}
+		var bad []string
+		n := 0
+		for _, fn := range v.moduleFuncs() {
+			for _, b := range fn.Blocks {
+				for _, in := range b.Instrs {
+					switch in := in.(type) {
+					case *ssa.FieldAddr:
+						st, ok := in.X.Type().Underlying().(*types.Pointer).Elem().Underlying().(*types.Struct)
+						nt, isN := in.X.Type().Underlying().(*types.Pointer).Elem().(*types.Named)
+						if !ok || !isN || nt.Obj().Pkg() == nil || nt.Obj().Pkg().Path() != mp+"/sizes" {
+							continue
+						}
+						if !protected[nt.Obj().Name()+"."+st.Field(in.Field).Name()] {
+							continue
+						}
+						for _, ref := range *in.Referrers() {
+							if u, isLoad := ref.(*ssa.UnOp); isLoad && u.Op == token.MUL {
+								continue
+							}
+							if _, isDbg := ref.(*ssa.DebugRef); isDbg {
+								continue
+							}
+							n++
+							if !allowed(fn) {
+								bad = append(bad, fn.String()+" writes or leaks "+nt.Obj().Name()+"."+st.Field(in.Field).Name()+" ("+v.posStr(in.Pos())+")")
+							}
+						}
+					case *ssa.MapUpdate:
+						if isSoughtMap(in.Map.Type(), mp) {
+							n++
+							if !allowed(fn) {
+								bad = append(bad, fn.String()+" updates a soughtPaths-typed map ("+v.posStr(in.Pos())+")")
+							}
+						}
+					case *ssa.Call:
+						if bi, ok := in.Call.Value.(*ssa.Builtin); ok && bi.Name() == "delete" && len(in.Call.Args) > 0 && isSoughtMap(in.Call.Args[0].Type(), mp) {
+							n++
+							if !allowed(fn) {
+								bad = append(bad, fn.String()+" deletes from a soughtPaths-typed map ("+v.posStr(in.Pos())+")")
+							}
+						}
+					}
+				}
+			}
+		}
+		sort.Strings(bad)
+		mk(len(bad) == 0 && n > 0, fmt.Sprintf("the %d writes to Path.parent/relativePath/seekerCount and to the soughtPaths map are all in methods of *InOrderPathResolver; offending: %v", n, bad))
 	default:
 		res.Unsupported = "unknown structural obligation " + name
 	}
